@@ -161,6 +161,32 @@ func genValue(t *rapid.T, o GenOpts, depth int, budget *int) Value {
 			if depth > 0 {
 				n = o.MaxArity
 			}
+		case 2:
+			if depth == 0 && o.MaxArity >= 6 {
+				// arities around the powers of two where growing buffers are re-allocated: a short drawn motif of
+				// small scalars repeated (cheap to draw and to shrink)
+				n = rapid.SampledFrom([]int{255, 256, 257, 1023, 1024, 1025, 1026, 2047, 2048, 2049, 4096, 5000}).Draw(t, "hugearity")
+				k := rapid.IntRange(1, 3).Draw(t, "motiflen")
+				motif := make([]Value, k)
+				for i := range motif {
+					switch rapid.IntRange(0, 3).Draw(t, "motifkind") {
+					case 0:
+						motif[i] = I(int64(i))
+					case 1:
+						motif[i] = Nil()
+					case 2:
+						motif[i] = Value{Kind: Bulk, Data: GenBulkPayload(3).Draw(t, "motifbulk")}
+					default:
+						motif[i] = A()
+					}
+				}
+				v := Value{Kind: Array, Elems: make([]Value, 0, n)}
+				for i := 0; i < n; i++ {
+					v.Elems = append(v.Elems, motif[i%k])
+				}
+				return v
+			}
+			n = rapid.IntRange(0, o.MaxArity).Draw(t, "arity")
 		default:
 			n = rapid.IntRange(0, o.MaxArity).Draw(t, "arity")
 		}
